@@ -121,7 +121,6 @@ func (br *xmpReader) readAttribute(tag *Tag) (attr Attribute, err error) {
 // readAttrValue reada an Attributes value from the Tag.
 // Needs improvement for performance
 func (br *xmpReader) readAttrValue(tag *Tag) (buf []byte, err error) {
-	d, i := 0, 2
 	s := maxTagValueSize / 2
 	for {
 		if buf, err = br.Peek(s); err != nil {
@@ -131,13 +130,15 @@ func (br *xmpReader) readAttrValue(tag *Tag) (buf []byte, err error) {
 
 		if buf[0] == '=' && (buf[1] == '"' || buf[1] == '\'') {
 			delim := buf[1]
-			if b := bytes.IndexByte(buf[i:], delim); b >= 0 {
-				i += b
-				d = i + 1
-				if buf[i+1] == '>' {
+			// the end of the tag needs up to two bytes after the closing quote: when they
+			// are beyond a full look-ahead window the window grows first
+			if b := bytes.IndexByte(buf[2:], delim); b >= 0 && (b+4 < len(buf) || len(buf) < s) {
+				i := b + 2
+				d := i + 1
+				if d < len(buf) && buf[d] == '>' {
 					d++
 					br.a = false
-				} else if buf[i+1] == '/' && buf[i+2] == '>' {
+				} else if d+1 < len(buf) && buf[d] == '/' && buf[d+1] == '>' {
 					d += 2
 					tag.t = soloTag
 					br.a = false
